@@ -113,6 +113,21 @@ Theorem C18_raw_equals_only_raw : forall s v,
 Proof. exact raw_equals_only_raw. Qed.
 Print Assumptions C18_raw_equals_only_raw.
 
+(* all six operators on two doubles are the IEEE comparisons; an integer against a double is compared as doubles *)
+Theorem C18_doubles_all_six_operators : forall x y,
+  op_eq (JDouble x) (JDouble y) = f_eq x y /\ op_ne (JDouble x) (JDouble y) = f_ne x y /\
+  op_lt (JDouble x) (JDouble y) = f_lt x y /\ op_gt (JDouble x) (JDouble y) = f_gt x y /\
+  op_le (JDouble x) (JDouble y) = f_le x y /\ op_ge (JDouble x) (JDouble y) = f_ge x y.
+Proof. exact double_all_six. Qed.
+Print Assumptions C18_doubles_all_six_operators.
+
+Theorem C18_integer_vs_double_as_doubles : forall z d,
+  op_eq (JInt z) (JDouble d) = f_eq (f_of_Z F64 z) d /\
+  op_lt (JInt z) (JDouble d) = f_lt (f_of_Z F64 z) d /\
+  op_gt (JInt z) (JDouble d) = f_gt (f_of_Z F64 z) d.
+Proof. exact int_vs_double. Qed.
+Print Assumptions C18_integer_vs_double_as_doubles.
+
 (* the full statement (without wf) is FALSE of the faithful model, with this witness — the known finding *)
 Theorem C18_symmetry_needs_distinct_keys :
   exists a b, op_eq a b <> op_eq b a.
